@@ -1,6 +1,7 @@
 package harness
 
 import (
+	"sort"
 	"strings"
 	"time"
 
@@ -44,4 +45,15 @@ func tapeHash(rec []uint32) uint64 {
 		h *= 1099511628211
 	}
 	return h
+}
+
+// sortedKeys returns the keys of a string-keyed map in sorted order (the
+// harness never iterates a Go map directly where the order could matter).
+func sortedKeys[V any](m map[string]V) []string {
+	ks := make([]string, 0, len(m))
+	for k := range m {
+		ks = append(ks, k)
+	}
+	sort.Strings(ks)
+	return ks
 }
